@@ -13,6 +13,14 @@ RULE = ("behaviours = all two-scene API call sequences of the stated depth over 
 def run(chk):
     tc.model_check(chk, chk.tier == "quick", parts=("main",) if chk.tier == "quick" else ("main", "refine", "extra"), small=chk.tier == "quick")
     tc.standard_plan(chk, "C04", "nt_C04", kinds_quick=("sort", "visual"))
+    # a constraint table that no pair violates is configured: scene isolation must not depend on that code path
+    r0, c0 = tc.generate(chk, "d3-loose-constraints", depth=3, MaxIdle=1, MaxDets=1, Confs={900})
+    for kind in ("sort", "visual") if chk.tier == "quick" else ("sort", "visual", "batchsort", "batchvisual"):
+        args = tc.vh_args(c0, kind, 2, "C04") + ["--constraints", "1:1000.0,5:1000.0"]
+        rep = vlib.run_vh(args, [r0.out])
+        rep["nontrivial"] = rep["counters"].get("nt_C04", 0)
+        chk.add_report(f"d3-loose-constraints:{kind}", rep)
+        chk.classify("tracker", args, rep)
     # VisualSORT batches with own-area gates: what a scene gets must not depend on the other scenes of its batch.
     # Disagreements that the one-scene batches show as well are not scene interference.
     vkw = dict(depth=5, Sim=12, OwnUse=50, OwnCollect=50, Kind="batch", Slots={1, 2}, Confs={900, 800}, Feats={1}, Quals={90}, MaxDets=2)
@@ -40,6 +48,8 @@ def run(chk):
         # interleaved run collects expired tracks at other moments than the single-scene run
         kw = dict(steps=200, shards=2, metric="iou" if i % 2 == 0 else "maha", max_idle=(0, 1, 2)[i % 3], objects=3, spread=90, scenes="0,7",
                   crafted=False, extra=["--no-lifecycle", "1"] + (["--aw", str((3, 7)[i % 2])] if i % 4 != 3 else []))
+        if i % 2 == 1:
+            kw["constraints"] = "1:1000.0,4:1000.0"
         a = r2.record(chk, f"c04-all-{i}", kind, seed, **kw)
         traces.append(a)
         for sc in (0, 7):
